@@ -2,6 +2,7 @@ package checks
 
 import (
 	"fmt"
+	"github.com/textwire/textwire/v2/config"
 	"math/rand"
 	"os"
 	"path/filepath"
@@ -63,7 +64,55 @@ func observe(out string, err error) string {
 
 func genDetCase(c *core.Ctx, i int) detCase {
 	r := c.Rng
-	switch i % 8 {
+	switch i % 10 {
+	case 8: // shuffle() and rand() may vary, nothing else: programs that use their results only in ways that do not depend on the order
+		n := 2 + r.Intn(14)
+		items := make([]int, n)
+		lits := make([]string, n)
+		for k := range items {
+			items[k] = k + 1
+			lits[k] = fmt.Sprint(k + 1)
+		}
+		src := []string{
+			"{{ a = [" + strings.Join(lits, ", ") + "] }}{{ a.shuffle().len() }}|{{ a }}|{{ a.slice(0, 1).shuffle().contains(1) }}|{{ a.join(\"-\") }}|{{ a.shuffle().contains(2) }}|{{ a }}",
+			"{{ d.shuffle().len() }}|{{ d }}|{{ d.reverse().shuffle().len() }}|{{ d.join(\"-\") }}|@each(x in d){{ x }},@end|{{ d.rand() > 0 }}|{{ d }}",
+			"@each(k in [1, 2, 3]){{ d.shuffle().len() }}{{ d.slice(1).shuffle().len() }}@end|{{ d }}|{{ d.slice(1) }}|{{ d.shuffle().contains(1) }}",
+			"{{ o = {list: d, n: 1} }}{{ o.list.shuffle().len() }}|{{ o }}|{{ [d, d][0].shuffle().len() }}|{{ d }}",
+		}[r.Intn(4)]
+		return detCase{map[string]any{"source": src, "items": n}, func(c *core.Ctx) string {
+			return observe(textwire.EvaluateString(src, map[string]any{"d": items}))
+		}}
+	case 9: // one loaded Template, the configuration changed afterwards: what it writes depends on the configuration of the moment,
+		// exactly like a Template loaded later from the same files
+		files := map[string]string{"page.tw": "p {{ 1 / zero }}", "errors/a.tw": "<error page A>", "errors/b.tw": "<error page B>{{ 1 + 1 }}", "ok.tw": "fine"}
+		order := [][]string{{"errors/a", "errors/b"}, {"errors/b", "errors/a"}, {"errors/a", "errors/missing"}, {"errors/a", ""}}[r.Intn(4)]
+		debugSecond := r.Intn(3) == 0
+		return detCase{map[string]any{"files": describeFiles(files), "error_pages_in_order": order, "debug_in_second_configuration": debugSecond}, func(c *core.Ctx) string {
+			if err := writeFilesFresh("c14cfg", files); err != nil {
+				return "WRITE:" + err.Error()
+			}
+			respond := func(t *textwire.Template) string {
+				rec := newRecorder()
+				err := t.Response(rec, "page", map[string]any{"zero": 0})
+				return fmt.Sprintf("body=%q err=%v", rec.body.String(), err)
+			}
+			textwire.VerifResetConfig()
+			first, err := textwire.NewTemplate(&config.Config{TemplateDir: "c14cfg", TemplateExt: ".tw", ErrorPagePath: order[0]})
+			if err != nil {
+				return "LOADERR:" + err.Error()
+			}
+			obs := "first:" + respond(first) + "|again:" + respond(first)
+			textwire.VerifResetConfig()
+			second, err := textwire.NewTemplate(&config.Config{TemplateDir: "c14cfg", TemplateExt: ".tw", ErrorPagePath: order[1], DebugMode: debugSecond})
+			if err != nil {
+				return obs + "|LOADERR2:" + err.Error()
+			}
+			older, newer := respond(first), respond(second)
+			if older != newer {
+				c.Violation("determinism:same-files-same-configuration", fmt.Sprintf("two Templates loaded from the same files write different things under the same configuration: the one loaded earlier %s, the one loaded now %s", clipS(older, 300), clipS(newer, 300)), map[string]any{"error_pages_in_order": order})
+			}
+			return obs + "|older:" + older + "|newer:" + newer
+		}}
 	case 0: // objects from the data map printed, dumped, nested, iterated
 		obj := manyKeyObject(r, 2+r.Intn(11), 2)
 		src := []string{"{{ o }}", "@dump(o)", "{{ [o, o] }}", "@dump(o, [o])", "{{ {w: o, v: 1} }}", "{{ x = o }}{{ x }}|@dump(x)", "@each(e in [o, o]){{ e }};@end", "{{ o.toString }}"}[r.Intn(8)]
